@@ -277,6 +277,9 @@ def scalar_values(kind: str) -> List[Any]:
                     if lo <= v <= hi:
                         vals.add(v)
         return sorted(vals)
+    if kind == "float":
+        # float32 fields given doubles that are not float32-exact: the ENCODING must be the reference's
+        return list(av.FLOAT_ALPHA) + list(av.FLOAT_INEXACT)
     return None
 
 
